@@ -193,12 +193,12 @@ Proof.
     easy_fields Iwr.
     + intros _. apply Forall_app. split; auto.
       unfold new_notifier. destruct (executes m); [|constructor].
-      destruct (m_sub m); constructor; cbn; auto.
+      destruct (m_sub m) as [[? ?]|]; constructor; cbn; auto.
     + apply Forall_app. split.
       * eapply Forall_impl; [|exact Iowner]. cbn. intros n Hn.
         rewrite app_nil_r in Hn. apply in_or_app. auto.
       * unfold new_notifier. destruct (executes m); [|constructor].
-        destruct (m_sub m); constructor; cbn; auto. apply in_or_app. cbn. auto.
+        destruct (m_sub m) as [[? ?]|]; constructor; cbn; auto. apply in_or_app. cbn. auto.
   - (* PPush *)
     inv_destruct I. destruct Ipc as ((rest & ->) & ->).
     inversion H; subst; clear H.
@@ -314,3 +314,433 @@ Proof.
   { intros A. destruct (before_write pp) eqn:B; auto.
     pose proof (nth_error_Forall _ _ _ _ (Iinact eq_refl) En) as Hn. cbn in Hn. congruence. }
   easy_fields0.
+  - intros W. destruct (Iunw W) as (-> & HR). split; auto.
+    unfold notify_out. destruct (n_activated n) eqn:A; auto.
+    specialize (Iafter (Hact eq_refl)). congruence.
+  - intros W. destruct (Iwr W) as (cnt & k & ns & -> & ? & ? & ? & ? & Hk).
+    exists cnt, k, (ns ++ notify_out n). rewrite app_assoc.
+    repeat split; auto using forallb_app_true, notifs_notify_out; destruct (Hk H3); auto.
+  - intros B. apply Forall_upd_nth; auto.
+    intros x Hx. unfold notify_upd. rewrite Hx. reflexivity.
+  - apply Forall_upd_nth; auto.
+    intros x Hx. unfold notify_upd. destruct (n_activated x); exact Hx.
+  - intros m' q HI. apply in_app_or in HI. destruct HI as [HI|HI]; eauto.
+    apply In_notify_out in HI. destruct HI as [-> A].
+    pose proof (nth_error_Forall _ _ _ _ Iowner En) as Ho. cbn in Ho.
+    assert (E : cur pp = []) by (specialize (Hact A); destruct pp; try discriminate; reflexivity).
+    rewrite E, app_nil_r in Ho. exact Ho.
+Qed.
+
+Lemma inv_bstep c all t s s' : Inv c all s -> bstep c t s = Some s' -> Inv c all s'.
+Proof.
+  destruct t; cbn; eauto using inv_pstep, inv_tstep, inv_estep.
+Qed.
+
+Lemma inv_reach c calls s : breach c (binit c calls) s -> Inv c calls s.
+Proof.
+  remember (binit c calls) as s0. induction 1; subst.
+  - apply inv_init.
+  - eapply inv_bstep; eauto.
+Qed.
+
+Lemma brun_reach c sch s : breach c s (brun c sch s).
+Proof.
+  assert (G : forall s0, breach c s0 s -> breach c s0 (brun c sch s)).
+  { revert s. induction sch as [|t r IH]; cbn; intros s s0 H; auto.
+    destruct (bstep c t s) eqn:E; auto. apply IH. econstructor; eauto. }
+  apply G. constructor.
+Qed.
+
+(* ================================================================== *)
+(* batch theorems                                                      *)
+(* ================================================================== *)
+
+(* the batch reply is written at most once, in every interleaving *)
+Lemma batch_written_at_most_once c calls s :
+  breach c (binit c calls) s -> length (batches (b_out s)) <= 1.
+Proof.
+  intros R. pose proof (inv_reach _ _ _ R) as I.
+  destruct (b_wrote s) eqn:W.
+  - destruct (inv_written _ _ _ I W) as (cnt & k & ns & -> & Hn & _).
+    unfold batches. rewrite flat_map_app, app_length.
+    assert (E : flat_map (fun e => match e with WBatch rs => [rs] | _ => [] end) ns = []).
+    { clear -Hn. induction ns as [|e r IH]; cbn in *; auto.
+      destruct e; cbn in *; try discriminate. auto. }
+    rewrite E. destruct cnt; cbn; lia.
+  - destruct (inv_unwritten _ _ _ I W) as (-> & _). cbn. lia.
+Qed.
+
+Lemma batches_wr cnt ns :
+  forallb is_notif ns = true -> batches (wr cnt ++ ns) = match cnt with [] => [] | _ => [cnt] end.
+Proof.
+  intros Hn. unfold batches. rewrite flat_map_app.
+  assert (E : flat_map (fun e => match e with WBatch rs => [rs] | _ => [] end) ns = []).
+  { clear -Hn. induction ns as [|e r IH]; cbn in *; auto.
+    destruct e; cbn in *; try discriminate. auto. }
+  rewrite E, app_nil_r. destruct cnt; reflexivity.
+Qed.
+
+(* safety, every interleaving, either timer order: whatever was written answers a
+   prefix of the batch, one response per answerable entry, in order, nothing for
+   notifications, nothing twice *)
+Lemma batch_no_duplicate_no_spurious c calls s :
+  breach c (binit c calls) s ->
+  exists cnt k, batches (b_out s) = match cnt with [] => [] | _ => [cnt] end /\
+                Forall2 RM cnt (answerable (firstn k calls)).
+Proof.
+  intros R. pose proof (inv_reach _ _ _ R) as I.
+  destruct (b_wrote s) eqn:W.
+  - destruct (inv_written _ _ _ I W) as (cnt & k & ns & -> & Hn & HF & _).
+    exists cnt, k. split; auto using batches_wr.
+  - destruct (inv_unwritten _ _ _ I W) as (-> & _). exists [], 0. split; auto. constructor.
+Qed.
+
+(* completeness for the code as it is (respondWithError before cancel): in every
+   interleaving, when the batch is over exactly one reply was written (none if
+   nothing is answerable) and it holds exactly one response per answerable entry
+   of the whole batch, in order *)
+Lemma batch_exactly_one_per_call c calls s :
+  c_cancel_first c = false ->
+  breach c (binit c calls) s -> bfinal s = true ->
+  exists cnt, batches (b_out s) = match cnt with [] => [] | _ => [cnt] end /\
+              singles (b_out s) = [] /\
+              Forall2 RM cnt (answerable calls).
+Proof.
+  intros CF R F. pose proof (inv_reach _ _ _ R) as I.
+  assert (W : b_wrote s = true).
+  { apply (inv_after _ _ _ I). unfold bfinal in F. destruct (b_ppc s); try discriminate. reflexivity. }
+  destruct (inv_written _ _ _ I W) as (cnt & k & ns & -> & Hn & HF & _ & Hle & Hk).
+  assert (k = length calls).
+  { destruct (Nat.eq_dec k (length calls)); auto. destruct Hk; [lia|congruence]. }
+  subst k. rewrite firstn_all in HF.
+  exists cnt. repeat split; auto using batches_wr.
+  unfold singles. rewrite flat_map_app.
+  assert (E : flat_map (fun e => match e with WSingle r => [r] | _ => [] end) ns = []).
+  { clear -Hn. induction ns as [|e r IH]; cbn in *; auto.
+    destruct e; cbn in *; try discriminate. auto. }
+  rewrite E. destruct cnt; reflexivity.
+Qed.
+
+(* the processor is never stuck before PDone (pushResponse never pops an empty list) *)
+Lemma batch_processor_progress c calls s :
+  breach c (binit c calls) s -> b_ppc s <> PDone -> pstep c s <> None.
+Proof.
+  intros R ND. pose proof (inv_pc _ _ _ (inv_reach _ _ _ R)) as P.
+  unfold pstep. destruct (b_ppc s); try congruence; try discriminate.
+  - destruct (b_calls s); discriminate.
+  - destruct P as ((rest & ->) & _). discriminate.
+  - destruct (nth_error (b_notifiers s) j); discriminate.
+Qed.
+
+(* after the write, no step changes what was written for the batch: a late
+   pushResponse (the call that was executing when the timer fired) is discarded *)
+Lemma batch_write_frozen c t s s' :
+  b_wrote s = true -> bstep c t s = Some s' ->
+  b_wrote s' = true /\ exists ns, b_out s' = b_out s ++ ns /\ forallb is_notif ns = true.
+Proof.
+  intros W H. destruct s as [calls resp wrote canc bytes pp tp nots out done].
+  cbn in W. subst wrote. destruct t; cbn in H.
+  - unfold pstep in H. cbn in H. destruct pp; try discriminate.
+    + inversion H; subst. cbn. split; auto. exists []. rewrite app_nil_r. auto.
+    + destruct calls; inversion H; subst; cbn; split; auto; exists []; rewrite app_nil_r; auto.
+    + inversion H; subst. cbn. split; auto. exists []. rewrite app_nil_r. auto.
+    + destruct calls; inversion H; subst; cbn; split; auto; exists []; rewrite app_nil_r; auto.
+    + inversion H; subst. cbn. split; auto. exists []. rewrite app_nil_r. auto.
+    + inversion H; subst. cbn. split; auto. exists []. rewrite app_nil_r. auto.
+    + inversion H; subst. cbn. split; auto. exists []. rewrite app_nil_r. auto.
+    + destruct (nth_error nots j); inversion H; subst; cbn; split; auto.
+      * eexists; split; eauto using notifs_activate_out.
+      * exists []. rewrite app_nil_r. auto.
+  - unfold tstep in H. cbn in H.
+    destruct tp; try discriminate; destruct (c_cancel_first c); inversion H; subst; cbn;
+      split; auto; exists []; rewrite app_nil_r; auto.
+  - unfold estep in H. cbn in H. destruct (nth_error nots i); inversion H; subst; cbn.
+    split; auto. eexists; split; eauto using notifs_notify_out.
+Qed.
+
+(* what the timer's respondWithError writes on an unwritten buffer: the responses
+   pushed so far, then a timeout error for every remaining answerable entry — the
+   head of calls is the call currently executing (inv_pc) *)
+Lemma batch_timeout_content (s : bstate) :
+  b_wrote s = false ->
+  b_out (respond_with_error E_TIMEOUT s) =
+  b_out s ++ wr (b_resp s ++ map (fun m => error_response m E_TIMEOUT) (answerable (b_calls s))).
+Proof.
+  intros W. unfold respond_with_error, do_write. cbn. rewrite W. cbn. rewrite wr_match. reflexivity.
+Qed.
+
+Lemma batch_executing_is_head c calls s m :
+  breach c (binit c calls) s -> b_ppc s = PExec m -> exists rest, b_calls s = m :: rest.
+Proof.
+  intros R E. pose proof (inv_pc _ _ _ (inv_reach _ _ _ R)) as P. rewrite E in P. exact P.
+Qed.
+
+(* whole-batch rejection: an empty batch, or one over the item limit, gets a single
+   error and no call is executed (DESIGN section 10 item 3) *)
+Lemma batch_invalid_single_error c msgs :
+  (msgs = [] \/ (c_item_limit c <> 0%N /\ (c_item_limit c < N.of_nat (length msgs))%N)) ->
+  handle_batch_front c msgs =
+    match msgs with
+    | [] => FEmpty (error_message E_INVALID_REQUEST)
+    | _ => FTooLarge [mkResp (first_call_id msgs) E_INVALID_REQUEST]
+    end.
+Proof.
+  intros [->|[L1 L2]]; [reflexivity|].
+  unfold handle_batch_front.
+  destruct msgs as [|m r]; [cbn in L2; lia|].
+  assert (E1 : (c_item_limit c =? 0)%N = false) by (apply N.eqb_neq; auto).
+  assert (E2 : (N.of_nat (length (m :: r)) <=? c_item_limit c)%N = false) by (apply N.leb_gt; auto).
+  rewrite E1, E2. cbn [orb]. rewrite andb_false_r.
+  assert (E3 : (N.of_nat (length (m :: r)) =? 0)%N = false) by (apply N.eqb_neq; cbn; lia).
+  rewrite E3. reflexivity.
+Qed.
+
+Lemma batch_within_limit_runs c msgs :
+  msgs <> [] -> (c_item_limit c = 0%N \/ (N.of_nat (length msgs) <= c_item_limit c)%N) ->
+  handle_batch_front c msgs =
+    match filter keep_as_call msgs with [] => FNothing | calls => FRun calls end.
+Proof.
+  intros NE L. unfold handle_batch_front.
+  assert (E0 : (0 <? N.of_nat (length msgs))%N = true).
+  { apply N.ltb_lt. destruct msgs; [congruence|cbn; lia]. }
+  rewrite E0. cbn [andb].
+  destruct L as [->|L]; [reflexivity|].
+  apply N.leb_le in L. rewrite L, orb_true_r. reflexivity.
+Qed.
+
+(* entries kept for execution are never responses; notifications stay notifications *)
+Lemma keep_as_call_not_response m : keep_as_call m = true -> is_response m = false.
+Proof. unfold keep_as_call. destruct (is_response m); auto; discriminate. Qed.
+
+(* subscription notifications are written only after the batch reply that carries
+   the response of the subscribe call *)
+Lemma batch_notifications_after_response c calls s pre m q post :
+  breach c (binit c calls) s ->
+  b_out s = pre ++ WNotif m q :: post -> is_call m = true ->
+  exists cnt r pre', pre = WBatch cnt :: pre' /\ In r cnt /\ r_id r = RCopy (m_id m).
+Proof.
+  intros R E C. pose proof (inv_reach _ _ _ R) as I.
+  assert (HI : In (WNotif m q) (b_out s)) by (rewrite E; apply in_or_app; cbn; auto).
+  destruct (b_wrote s) eqn:W.
+  2:{ destruct (inv_unwritten _ _ _ I W) as (E0 & _). rewrite E0 in HI. contradiction. }
+  pose proof (inv_notif _ _ _ I _ _ HI) as Hd.
+  destruct (inv_written _ _ _ I W) as (cnt & k & ns & Eo & Hn & HF & Hle & _).
+  assert (Hin : In m (answerable (firstn k calls))).
+  { rewrite (inv_split _ _ _ I), firstn_prefix by exact Hle.
+    unfold answerable. apply filter_In. split.
+    - apply in_or_app. auto.
+    - rewrite call_not_notification; auto. }
+  destruct (Forall2_In_r _ _ _ _ HF Hin) as (r & Hr & [Hid _]).
+  exists cnt, r. rewrite Eo in E.
+  destruct cnt as [|r0 cnt']; [contradiction|]. cbn in E.
+  destruct pre as [|e pre']; cbn in E; inversion E; subst.
+  exists pre'. auto.
+Qed.
+
+(* the old timer order (cancel, then respondWithError) does lose responses: two
+   calls; the first finishes; the timer cancels; the processor sees the cancellation,
+   leaves the loop and writes [r1]; the timer's respondWithError is then a no-op *)
+Definition wit_call (i : N) : msg := mkMsg true (IdVal true i) MPlain false false false 0 1 None.
+Definition wit_cfg (cancel_first : bool) : cfg := mkCfg 0 0 43 true cancel_first.
+Definition wit_schedule : list tid :=
+  [TP; TP; TP; TP;    (* check, nextCall, exec call 1, pushResponse *)
+   TT;                (* timer: first action *)
+   TP; TP; TP;        (* check (sees cancellation iff cancel came first) ... *)
+   TT;                (* timer: second action *)
+   TP; TP; TP; TP; TP; TP; TP; TP; TP; TP].
+
+Lemma batch_cancel_first_refuted :
+  exists c calls sch,
+    c_cancel_first c = true /\
+    let s := brun c sch (binit c calls) in
+    bfinal s = true /\
+    answerable calls = calls /\ length calls = 2 /\
+    batches (b_out s) = [[mkResp (RCopy (IdVal true 1)) 0]].
+Proof.
+  exists (wit_cfg true), [wit_call 1; wit_call 2], wit_schedule.
+  vm_compute. repeat split; reflexivity.
+Qed.
+
+(* ================================================================== *)
+(* single call                                                         *)
+(* ================================================================== *)
+
+Definition sbefore (p : spc) : bool :=
+  match p with SActivate _ | SDone => false | _ => true end.
+
+Record SInv (c : cfg) (m : msg) (s : sstate) : Prop := {
+  sinv_unresp : s_responded s = false -> s_out s = [];
+  sinv_resp :
+    s_responded s = true ->
+    exists ns, forallb is_notif ns = true /\
+      ((s_out s = WSingle (handle_call_msg m) :: ns /\ is_notification m = false) \/
+       (s_out s = ns /\ is_notification m = true) \/
+       (s_out s = WSingle (error_response m E_TIMEOUT) :: ns /\ s_tpc s = TDone));
+  sinv_after : sbefore (s_spc s) = false -> s_responded s = true;
+  sinv_inactive :
+    sbefore (s_spc s) = true -> Forall (fun n => n_activated n = false) (s_notifiers s);
+  sinv_pc :
+    match s_spc s with
+    | SStop r | SRespond r => r = handle_call_msg m
+    | _ => True
+    end;
+  sinv_notimer : c_timeout c = false -> s_tpc s = TNone
+}.
+
+Lemma sinv_init c m : SInv c m (sinit c).
+Proof.
+  constructor; cbn; auto; try discriminate.
+  intros ->. reflexivity.
+Qed.
+
+Ltac sinv_destruct I := destruct I as [Iun Ire Iaf Iin Ipc Int]; cbn in *.
+
+Ltac keep_resp Ire :=
+  let W := fresh "W" in let ns := fresh "ns" in
+  intros W; destruct (Ire W) as (ns & ? & [[? ?]|[[? ?]|[? ?]]]);
+  exists ns; split; auto.
+
+Lemma sinv_step c m t s s' : SInv c m s -> sstep m t s = Some s' -> SInv c m s'.
+Proof.
+  intros I H. destruct s as [rsp canc pc tp nots out]. destruct t; cbn in H.
+  - (* processor *)
+    unfold spstep in H. cbn in H. destruct pc.
+    + inversion H; subst; clear H. sinv_destruct I.
+      constructor; cbn; auto; try discriminate; try (keep_resp Ire).
+      intros _. apply Forall_app. split; auto.
+      unfold new_notifier. destruct (executes m); [|constructor].
+      destruct (m_sub m) as [[? ?]|]; constructor; cbn; auto.
+    + inversion H; subst; clear H. sinv_destruct I. subst r.
+      constructor; cbn; auto; try discriminate.
+      * intros W. destruct (Ire W) as (ns & ? & [[? ?]|[[? ?]|[? ?]]]); exists ns; split; auto.
+        subst tp. cbn. auto.
+      * intros T. rewrite (Int T). reflexivity.
+    + inversion H; subst; clear H. sinv_destruct I. subst r.
+      unfold once_write, sset_spc. cbn. destruct rsp; cbn.
+      * constructor; cbn; auto; try discriminate.
+      * rewrite (Iun eq_refl).
+        constructor; cbn; auto; try discriminate.
+        intros _. exists []. split; auto.
+        destruct (is_notification m); cbn; auto.
+    + sinv_destruct I. specialize (Iaf eq_refl). subst rsp.
+      destruct (nth_error nots j) as [n|] eqn:En; inversion H; subst; clear H.
+      * constructor; cbn; auto; try discriminate.
+        intros _. destruct (Ire eq_refl) as (ns & ? & [[-> ?]|[[-> ?]|[-> ?]]]);
+          exists (ns ++ activate_out n); (split; [auto using forallb_app_true, notifs_activate_out|]); auto.
+      * constructor; cbn; auto; try discriminate.
+    + discriminate.
+  - (* timer *)
+    unfold ststep in H. cbn in H. destruct tp; try discriminate.
+    + inversion H; subst; clear H. sinv_destruct I.
+      constructor; cbn; auto; try discriminate.
+      * intros W. destruct (Ire W) as (ns & ? & [[? ?]|[[? ?]|[? ?]]]); try discriminate;
+          exists ns; split; auto.
+      * intros T. specialize (Int T). discriminate.
+    + inversion H; subst; clear H. sinv_destruct I.
+      unfold once_write, sset_tpc. cbn. destruct rsp; cbn.
+      * constructor; cbn; auto; try discriminate.
+        -- intros W. destruct (Ire W) as (ns & ? & [[? ?]|[[? ?]|[? ?]]]); try discriminate;
+             exists ns; split; auto.
+        -- intros T. specialize (Int T). discriminate.
+      * rewrite (Iun eq_refl).
+        constructor; cbn; auto; try discriminate.
+        -- intros _. exists []. split; auto.
+        -- intros T. specialize (Int T). discriminate.
+  - (* Notify *)
+    unfold sestep in H. cbn in H.
+    destruct (nth_error nots i) as [n|] eqn:En; inversion H; subst; clear H.
+    sinv_destruct I.
+    assert (Hact : n_activated n = true -> sbefore pc = false).
+    { intros A. destruct (sbefore pc) eqn:B; auto.
+      pose proof (nth_error_Forall _ _ _ _ (Iin eq_refl) En) as Hn. cbn in Hn. congruence. }
+    constructor; cbn; auto.
+    + intros W. rewrite (Iun W). unfold notify_out. destruct (n_activated n) eqn:A; auto.
+      specialize (Iaf (Hact eq_refl)). congruence.
+    + intros W. destruct (Ire W) as (ns & ? & [[-> ?]|[[-> ?]|[-> ?]]]);
+        exists (ns ++ notify_out n); (split; [auto using forallb_app_true, notifs_notify_out|]); auto.
+    + intros B. apply Forall_upd_nth; auto.
+      intros x Hx. unfold notify_upd. rewrite Hx. reflexivity.
+Qed.
+
+Lemma sinv_reach c m s : sreach m (sinit c) s -> SInv c m s.
+Proof.
+  remember (sinit c) as s0. induction 1; subst.
+  - apply sinv_init.
+  - eapply sinv_step; eauto.
+Qed.
+
+Lemma singles_notifs ns : forallb is_notif ns = true -> singles ns = [].
+Proof.
+  unfold singles. induction ns as [|e r IH]; cbn; auto.
+  destruct e; cbn; try discriminate. auto.
+Qed.
+
+Lemma singles_cons r ns : forallb is_notif ns = true -> singles (WSingle r :: ns) = [r].
+Proof. intros H. change (singles (WSingle r :: ns)) with (r :: singles ns). rewrite singles_notifs; auto. Qed.
+
+(* a single non-notification message is answered exactly once, in every
+   interleaving of the handler goroutine and the timer *)
+Lemma single_exactly_once c m s :
+  sreach m (sinit c) s -> sfinal s = true -> is_notification m = false ->
+  exists r ns, s_out s = WSingle r :: ns /\ forallb is_notif ns = true /\
+               singles (s_out s) = [r] /\ RM r m.
+Proof.
+  intros R F N. pose proof (sinv_reach _ _ _ R) as I.
+  assert (W : s_responded s = true).
+  { apply (sinv_after _ _ _ I). unfold sfinal in F. destruct (s_spc s); try discriminate. reflexivity. }
+  destruct (sinv_resp _ _ _ I W) as (ns & Hn & [[E _]|[[_ N']|[E _]]]); [| congruence |].
+  - exists (handle_call_msg m), ns. rewrite E.
+    split; [reflexivity|]. split; [exact Hn|].
+    split; [apply singles_cons; auto | apply RM_handle_call_msg; auto].
+  - exists (error_response m E_TIMEOUT), ns. rewrite E.
+    split; [reflexivity|]. split; [exact Hn|].
+    split; [apply singles_cons; auto | apply RM_error_response; discriminate].
+Qed.
+
+(* a single notification gets no reply — when no request timeout is configured *)
+Lemma single_notification_no_reply_partial c m s :
+  c_timeout c = false ->
+  sreach m (sinit c) s -> is_notification m = true -> singles (s_out s) = [].
+Proof.
+  intros T R N. pose proof (sinv_reach _ _ _ R) as I.
+  destruct (s_responded s) eqn:W.
+  - destruct (sinv_resp _ _ _ I W) as (ns & Hn & [[_ N']|[[E _]|[_ E]]]); [congruence | |].
+    + rewrite E. auto using singles_notifs.
+    + rewrite (sinv_notimer _ _ _ I T) in E. discriminate.
+  - rewrite (sinv_unresp _ _ _ I W). reflexivity.
+Qed.
+
+(* ... and with a timeout the timer callback replies to a notification *)
+Definition wit_notification : msg := mkMsg true IdAbsent MPlain false false false 0 1 None.
+
+Lemma single_notification_timeout_refuted :
+  exists c m sch,
+    is_notification m = true /\
+    let s := srun m sch (sinit c) in
+    sfinal s = true /\ singles (s_out s) = [error_response m E_TIMEOUT].
+Proof.
+  exists (wit_cfg false), wit_notification, [TT; TT; TP; TP; TP; TP; TP].
+  vm_compute. repeat split; reflexivity.
+Qed.
+
+Lemma single_notifications_after_response c m s pre m' q post :
+  sreach m (sinit c) s ->
+  s_out s = pre ++ WNotif m' q :: post -> is_notification m = false ->
+  exists r pre', pre = WSingle r :: pre' /\ RM r m.
+Proof.
+  intros R E N. pose proof (sinv_reach _ _ _ R) as I.
+  destruct (s_responded s) eqn:W.
+  2:{ rewrite (sinv_unresp _ _ _ I W) in E. destruct pre; discriminate. }
+  destruct (sinv_resp _ _ _ I W) as (ns & Hn & [[E' _]|[[_ N']|[E' _]]]); [| congruence |];
+    rewrite E' in E; destruct pre as [|e pre']; cbn in E; inversion E; subst.
+  - exists (handle_call_msg m), pre'. auto using RM_handle_call_msg.
+  - exists (error_response m E_TIMEOUT), pre'. split; auto. apply RM_error_response. discriminate.
+Qed.
+
+Lemma srun_reach m sch s : sreach m s (srun m sch s).
+Proof.
+  assert (G : forall s0, sreach m s0 s -> sreach m s0 (srun m sch s)).
+  { revert s. induction sch as [|t r IH]; cbn; intros s s0 H; auto.
+    destruct (sstep m t s) eqn:E; auto. apply IH. econstructor; eauto. }
+  apply G. constructor.
+Qed.
